@@ -46,7 +46,7 @@ Definition live (s : sock) (d : N) : bool := negb (memN d (s_gone s)).
 Definition at_addr (n l : N) (da : N * (N * N)) : bool := (fst (snd da) =? n) && (snd (snd da) =? l).
 
 Definition abs (s : sock) : ospec :=
-  {| o_addr := s_addr s; o_gone := s_gone s; o_routes := s_routes s; o_stopped := s_stopped s |}.
+  {| o_addr := s_addr s; o_gone := s_gone s; o_routes := s_routes s; o_stopped := s_stopped s; o_senders := s_senders s |}.
 
 Lemma owed_alt s n l : owed s n l = filter (live s) (map fst (filter (at_addr n l) (s_addr s))).
 Proof.
@@ -82,13 +82,13 @@ Lemma sstep_refines plane s o : TInv s ->
 Proof.
   intros HT. unfold sstep, expected. cbn [abs o_stopped]. destruct (s_stopped s) eqn:Es.
   { cbn [fst snd]. split; [reflexivity|]. split; [unfold abs; now rewrite Es|exact HT]. }
-  destruct o as [d n l|d|q|p| |n p|d q]; cbn [fst snd abs o_addr o_gone o_routes o_stopped].
+  destruct o as [d n l|d|q|p| |n p|d q|d]; cbn [fst snd abs o_addr o_gone o_routes o_stopped o_senders].
   - (* attach *)
     split; [reflexivity|]. split; [reflexivity|].
     intros n' l'. cbn [s_subs]. rewrite tget_tset, owed_alt. cbn [s_addr].
     rewrite filter_app, map_app. cbn [filter map]. unfold at_addr at 2. cbn [fst snd]. rewrite filter_app.
     change (live {| s_subs := tset (s_subs s) n l (tget (s_subs s) n l ++ [d]); s_routes := s_routes s;
-                    s_addr := s_addr s ++ [(d, (n, l))]; s_gone := s_gone s; s_stopped := false |}) with (live s).
+                    s_addr := s_addr s ++ [(d, (n, l))]; s_gone := s_gone s; s_stopped := false; s_senders := s_senders s |}) with (live s).
     rewrite <- owed_alt, <- HT. rewrite (N.eqb_sym n n'), (N.eqb_sym l l').
     destruct ((n' =? n) && (l' =? l)) eqn:E.
     + apply andb_true_iff in E as [E1 E2]. apply N.eqb_eq in E1, E2. subst n' l'. now rewrite filter_app.
@@ -96,7 +96,7 @@ Proof.
   - (* a downlink goes away *)
     split; [reflexivity|]. split; [reflexivity|].
     intros n l. cbn [s_subs]. rewrite owed_alt. cbn [s_addr].
-    assert (Hl : forall x, live {| s_subs := s_subs s; s_routes := s_routes s; s_addr := s_addr s; s_gone := d :: s_gone s; s_stopped := false |} x
+    assert (Hl : forall x, live {| s_subs := s_subs s; s_routes := s_routes s; s_addr := s_addr s; s_gone := d :: s_gone s; s_stopped := false; s_senders := s_senders s |} x
                            = (live s x && negb (x =? d))).
     { intros x. unfold live. cbn [s_gone memN existsb]. destruct (x =? d); cbn; [now rewrite andb_false_r|now rewrite andb_true_r]. }
     rewrite (filter_ext _ _ Hl), (filter_ext _ _ Hl). rewrite <- !filter_filter. rewrite <- owed_alt, HT. reflexivity.
@@ -129,6 +129,8 @@ Proof.
     assert (H : match lookup d (s_addr s) with Some _ => true | None => false end = memN d (map fst (s_addr s))).
     { induction (s_addr s) as [|[k v] m IH]; cbn; [reflexivity|]. destruct (d =? k); [reflexivity|exact IH]. }
     destruct (lookup d (s_addr s)); rewrite <- H; cbn; [destruct (memN d (s_gone s)); reflexivity|reflexivity].
+  - (* a send-only client: no table, no registration changes *)
+    split; [reflexivity|]. split; [reflexivity|]. exact HT.
 Qed.
 
 Theorem socket_tables_refine_registrations plane ops : forall s, TInv s ->
@@ -190,6 +192,20 @@ Theorem outgoing_messages_leave_unchanged plane s d q :
   s_stopped s = false -> lookup d (s_addr s) <> None -> memN d (s_gone s) = false ->
   snd (sstep plane s (ODlSend d q)) = [DFrame (FReq q)].
 Proof. intros Hs Ha Hg. unfold sstep. rewrite Hs. cbn. destruct (lookup d (s_addr s)); [now rewrite Hg|congruence]. Qed.
+
+(* the same for a send-only client: every request it writes leaves the socket unchanged (it is filed under no
+   address, so no response is ever owed to it) *)
+Theorem sender_messages_leave_unchanged plane s d q :
+  s_stopped s = false -> memN d (s_senders s) = true -> memN d (s_gone s) = false ->
+  snd (sstep plane s (ODlSend d q)) = [DFrame (FReq q)].
+Proof.
+  intros Hs Ha Hg. unfold sstep. rewrite Hs. cbn. destruct (lookup d (s_addr s)); [now rewrite Hg|].
+  now rewrite Ha, Hg.
+Qed.
+
+Lemma attach_sender_registers plane s d :
+  s_stopped s = false -> memN d (s_senders (fst (sstep plane s (OAttachSender d)))) = true.
+Proof. intros Hs. unfold sstep. rewrite Hs. cbn. now rewrite N.eqb_refl. Qed.
 
 (* non-vacuity: the clean-up case - two lanes of one node, the only downlink of one has gone *)
 Lemma cleanup_witness :
